@@ -131,6 +131,8 @@ type Kernel struct {
 
 	aborting bool
 
+	pool *PoolSim
+
 	// AfterDrain, if set, is called on the scheduler goroutine after the
 	// notes of a step have been processed (end-of-step invariants).
 	AfterDrain func()
